@@ -1,7 +1,7 @@
 //! verif-harness: generates cases and runs them on the implementation.
 //!   harness gen <PROP> --seed S --n N --tier quick|thorough   > cases
 //!   harness run <PROP> < cases                                > cases with OUT lines
-mod alloc; mod rng; mod tok; mod c20;
+mod alloc; mod rng; mod tok; mod resp; mod srv; mod c20; mod c01;
 use std::io::{self, BufWriter, Write};
 
 #[global_allocator]
@@ -13,6 +13,7 @@ fn arg(args: &[String], name: &str, def: &str) -> String {
 
 fn main() {
     let args: Vec<String> = std::env::args().collect();
+    if args.len() >= 2 && args[1] == "serve" { srv::serve(&args); return; }
     if args.len() < 3 { eprintln!("usage: harness gen|run PROP [--seed S] [--n N] [--tier T]"); std::process::exit(2); }
     let (mode, prop) = (args[1].as_str(), args[2].as_str());
     let seed: u64 = arg(&args, "--seed", "1").parse().unwrap_or(1);
@@ -22,13 +23,13 @@ fn main() {
     let out = io::stdout(); let mut w = BufWriter::new(out.lock());
     match mode {
         "gen" => {
-            let cases = match prop { "C20" => c20::gen(seed, n, &tier), _ => { eprintln!("no generator for {}", prop); std::process::exit(2) } };
+            let cases = match prop { "C20" => c20::gen(seed, n, &tier), "C01" => c01::gen(seed, n, &tier), _ => { eprintln!("no generator for {}", prop); std::process::exit(2) } };
             for c in &cases { tok::write_case(&mut w, c); }
         }
         "run" => {
             let cases = tok::read_cases(io::stdin().lock());
             for c in &cases {
-                let r = match prop { "C20" => c20::run(c), _ => { eprintln!("no runner for {}", prop); std::process::exit(2) } };
+                let r = match prop { "C20" => c20::run(c), "C01" => c01::run(c), _ => { eprintln!("no runner for {}", prop); std::process::exit(2) } };
                 tok::write_case(&mut w, &r);
             }
         }
